@@ -1,4 +1,5 @@
 import XcpProofs.Merge
+import XcpProofs.Extents
 /-! # C19 — libfs sparse maps never hide data
 
 Statement: the data ranges libfs reports (extent mapping, optionally merged; or successive data/hole
@@ -25,6 +26,45 @@ theorem merge_adds_only_unit_gaps (l : List Extent) (hw : WF l) (b : Nat) (h : c
     covers l b ∨ ∃ x ∈ l, ∃ y ∈ l, y.start = x.stop + 1 ∧ b = x.stop := by
   have := mergeGo_sound none l (by simpa [pl] using hw) b h
   simpa [pl] using this
+
+/-- Merged ranges begin and end at input boundaries. -/
+theorem merge_begins_and_ends_at_input_boundaries (l : List Extent) :
+    ∀ m ∈ mergeExtents l, (∃ e ∈ l, e.start = m.start) ∧ (∃ e ∈ l, e.stop = m.stop) :=
+  merge_boundaries l
+
+/-- Merged ranges are again ordered, non-empty and non-overlapping. -/
+theorem merge_ordered_nonoverlapping (l : List Extent) (hw : WF l) : WF (mergeExtents l) :=
+  merge_wf l hw
+
+/-- The overflow-checked merge the executable model runs (and the dev-profile Rust code is) agrees with
+`mergeExtents` whenever it does not panic, and panics only if an extent ends at `u64::MAX`. -/
+theorem merge_checked_agrees (l r : List Extent) (h : mergeGoChk none l = some r) : r = mergeExtents l :=
+  mergeGoChk_eq none l r h
+
+/-- Extent mapping: for ANY number of extents and any page size ≥ 1 (the code uses 32) the paging loop
+terminates and returns exactly the file's extent list — no extent is dropped or duplicated at a page seam. -/
+theorem map_extents_returns_all_pages (all : List Extent) (hw : WF all) (slots : Nat) (hs : 0 < slots) :
+    mapExtents (fiemapOf all slots) (all.length + 2) = some (some all) :=
+  mapExtents_all_pages all hw slots hs
+
+/-- Segment search: the data ranges found by successive SEEK_DATA/SEEK_HOLE are ordered, non-overlapping
+and inside the file … -/
+theorem segments_ordered_nonoverlapping (s : SeekOracle) (src : Bytes) (hl : SeekLegal s src) :
+    List.Pairwise (fun a b => a.2 ≤ b.1) (segmentsOf s src.length (src.length + 1) 0) ∧
+    ∀ seg ∈ segmentsOf s src.length (src.length + 1) 0, seg.1 ≤ seg.2 ∧ seg.2 ≤ src.length :=
+  segments_ordered s src hl
+
+/-- … and every byte outside them reads as zero. -/
+theorem segments_never_hide_data (s : SeekOracle) (src : Bytes) (hl : SeekLegal s src) (i : Nat)
+    (hi : i < src.length) (hout : ¬ ∃ seg ∈ segmentsOf s src.length (src.length + 1) 0, seg.1 ≤ i ∧ i < seg.2) :
+    src[i]? = some 0 := by
+  apply Classical.byContradiction
+  intro hnz
+  exact hout (segments_cover s src hl i hi hnz)
+
+/-- The SEEK contract is satisfiable by what the executable model runs: any sound layout. -/
+theorem layout_oracle_is_legal (L : Layout) (src : Bytes) (h : LayoutSound L src) : SeekLegal L.oracle src :=
+  layout_oracle_legal L src h
 
 /-- Non-vacuity: a concrete well-formed list on which merging really merges, and the added byte. -/
 example : WF [⟨0, 10, false⟩, ⟨11, 20, false⟩, ⟨30, 40, true⟩] ∧
